@@ -2230,8 +2230,11 @@ foamFrBuffer(Buffer buf)
 
 	if (!isNary)
 		argc = foamInfo(tag).argc;
-	else
+	else {
 		FOAM_GET_INT(format, buf, argc);
+		if (argc < 0)	/* a count from a damaged file */
+			bug("Negative argument count (%d) in saved FOAM", argc);
+	}
 
 	argf  = foamInfo(tag).argf;
 	if (tag == FOAM_DFlo)
@@ -2311,6 +2314,8 @@ foamFrBuffer(Buffer buf)
 			U16 *data;
 			neg = bufGetByte(buf);
 			FOAM_GET_INT(format, buf, slen);
+			if (slen < 0)	/* a count from a damaged file */
+				bug("Negative digit count (%d) in saved FOAM", slen);
 			data = (U16*) stoAlloc(OB_Other, slen*sizeof(U16));
 			for (bi = 0; bi < slen; bi++) {
 				n = bufGetHInt(buf);
@@ -2360,8 +2365,11 @@ foamProgHdrFrBuffer(Buffer buf)
 
 	if (!isNary)
 		argc = foamInfo(tag).argc;
-	else
+	else {
 		FOAM_GET_INT(format, buf, argc);
+		if (argc < 0)	/* a count from a damaged file */
+			bug("Negative argument count (%d) in saved FOAM", argc);
+	}
 
 	if (tag != FOAM_Prog) return NULL;
 
@@ -2437,6 +2445,8 @@ foamProgHdrFrBuffer(Buffer buf)
 			U16 *data;
 			neg = bufGetByte(buf);
 			FOAM_GET_INT(format, buf, slen);
+			if (slen < 0)	/* a count from a damaged file */
+				bug("Negative digit count (%d) in saved FOAM", slen);
 			data = (U16*) stoAlloc(OB_Other, slen*sizeof(U16));
 			for (bi = 0; bi < slen; bi++) {
 				n = bufGetHInt(buf);
@@ -2751,8 +2761,11 @@ foamFrBuffer0(Buffer buf)
 	isNary = (foamInfo(tag).argc == FOAM_NARY);
 	if (!isNary)
 		argc = foamInfo(tag).argc;
-	else
+	else {
 		FOAM_GET_INT(format, buf, argc);
+		if (argc < 0)	/* a count from a damaged file */
+			bug("Negative argument count (%d) in saved FOAM", argc);
+	}
 
 	argf  = foamInfo(tag).argf;
 
@@ -2804,7 +2817,9 @@ foamFrBuffer0(Buffer buf)
 		case 'n':
 			bufGetn(buf, BYTE_BYTES);
 			FOAM_GET_INT(format, buf, n);
-			bufGetn(buf, n * HINT_BYTES);
+			if (n < 0)	/* a count from a damaged file */
+				bug("Negative digit count (%d) in saved FOAM", n);
+			bufGetn(buf, (Length) n * HINT_BYTES);
 			break;
 		case 'C':
 			foamFrBuffer0(buf);
